@@ -94,7 +94,7 @@ func (w *WideQ) opts() Opts {
 
 var wideConstructs = []string{"filter", "case", "in-list", "between", "fn-args", "group", "group-having", "group-by-expr", "whole-agg", "join", "left-join", "parallel-join",
 	"hash-join", "cte", "cte-twice", "derived", "sel-sub", "sel-sub-root", "in-sub", "exists", "not-exists", "union", "union-all", "order-limit", "distinct", "nested-from", "star-sub", "like-is", "join-derived", "cte-join", "in-sub-root", "exists-outer", "having-agg",
-	"join-on-fn", "join-on-fn", "join-unaliased", "join-unaliased", "derived-cte", "join-derived-cte", "in-sub-cte", "sel-sub-cte", "exists-cte", "cte-union", "cte-nested", "selector-item", "selector-item", "fuse-item"}
+	"join-on-fn", "join-on-fn", "join-unaliased", "join-unaliased", "derived-cte", "join-derived-cte", "in-sub-cte", "sel-sub-cte", "exists-cte", "cte-union", "cte-nested", "selector-item", "selector-item", "fuse-item", "cte-path"}
 
 func genWide(t *rapid.T, only []string) *WideQ {
 	doc, sc := genC07Doc(t)
@@ -190,6 +190,12 @@ func genWideOn(t *rapid.T, doc map[string]any, sc *c07Schema, only []string) *Wi
 		w.Unordered = w.Construct == "union"
 	case "order-limit":
 		w.Tpl = fmt.Sprintf("SELECT %s, {F@select-item:%s} AS w, %s FROM {T}%s ORDER BY w %s, %s, %s", k, v, s, optWhere("w", ""), rapid.SampledFrom([]string{"ASC", "DESC"}).Draw(t, "dir"), k, s)
+		if rapid.IntRange(0, 2).Draw(t, "hiddenkey") == 0 {
+			// ordering by columns the select list does not output (the order itself is not judged here, only that
+			// the query behaves: no crash, input untouched, plain data, same answer every time)
+			w.Tpl = fmt.Sprintf("SELECT {F@select-item:%s} AS w FROM {T}%s ORDER BY %s %s, %s", s, optWhere("w2", ""), v, rapid.SampledFrom([]string{"ASC", "DESC"}).Draw(t, "dir2"), k)
+			w.Unordered = true
+		}
 		if rapid.Bool().Draw(t, "limit") {
 			w.Tpl += fmt.Sprintf(" LIMIT %d", rapid.IntRange(0, 4).Draw(t, "n"))
 			if rapid.Bool().Draw(t, "offset") {
@@ -295,6 +301,13 @@ func genWideOn(t *rapid.T, doc map[string]any, sc *c07Schema, only []string) *Wi
 		}
 		perm := rapid.Permutation(its).Draw(t, "fuseorder")
 		w.Tpl = "SELECT " + strings.Join(perm, ", ") + " FROM {T}" + optWhere("w", "")
+	case "cte-path":
+		// a CTE read through a path selector (index, key, each, range, mix=>), in FROM and in a back reference
+		path := rapid.SampledFrom([]string{"`c[0]`", "`c[(0:1)]`", "c." + items, "`c[each]." + items + "`", "`mix=>c." + items + "`", "`c[9]`", "`c::[0]`"}).Draw(t, "ctepath")
+		w.Tpl = fmt.Sprintf("WITH c AS (SELECT {F@cte-body:%s} AS kk, %s, %s FROM {T}%s) SELECT * FROM %s", k, s, items, optWhere("w", ""), path)
+		if rapid.IntRange(0, 3).Draw(t, "cteback") == 0 {
+			w.Tpl = fmt.Sprintf("WITH c AS (SELECT {F@cte-body:%s} AS kk, %s FROM {T}) SELECT %s, (SELECT kk FROM `<-c[0]`) AS sb FROM {T}", k, s, k)
+		}
 	case "like-is":
 		w.Tpl = fmt.Sprintf("SELECT %s, %s FROM {T} WHERE {F@like-operand:%s} LIKE %s OR {F@is-operand:%s} IS NULL OR %s IS NOT NULL", k, s, s, sq.StrLit(rapid.SampledFrom([]string{"a%", "%b", "_", "%"}).Draw(t, "pat")), "nokey", v)
 	}
